@@ -76,7 +76,9 @@ void lp_feasibility_set_int_construct_from_integer(lp_feasibility_set_int_t *set
   for (size_t i = 0; i < size; ++ i) {
     lp_integer_construct_copy(K, set->elements + i, elements + i);
   }
-  qsort(set->elements, size, sizeof(lp_integer_t), int_cmp);
+  if (size > 1) {
+    qsort(set->elements, size, sizeof(lp_integer_t), int_cmp);
+  }
   size_t new_size = unique_lp_integer(set->elements, size);
   if (new_size < size) {
     set->elements = realloc(set->elements, new_size * sizeof(lp_integer_t));
